@@ -7,7 +7,7 @@ pub struct C01;
 const ENUM_CHUNKS: u64 = 64;
 
 fn n_random(tier: Tier) -> u64 {
-    tier.pick(15000, 150000)
+    tier.pick(15000, 60000)
 }
 
 fn cfg(tier: Tier, index: u64) -> HistCfg {
